@@ -95,6 +95,10 @@ func cmdCheck(args []string) int {
 			cfg.concLimit = hs.Conc
 		}
 		cfg.seed = seed
+		cfg.TimeBudget = 8 * time.Minute
+		if tier == 1 {
+			cfg.TimeBudget = 90 * time.Minute
+		}
 		cfg.Stall = hs.Stall
 		cfg.TimeFixed = hs.TimeFixed
 		if hs.Stall && hs.Steps == 0 {
